@@ -258,7 +258,7 @@ Proof.
   destruct (lookup_var x (m_scopes m1)) as [c0|] eqn:El; [|unfold rt_err, fail_here, unexpected_at in H; destruct (stmt_at code (m_pc m1)); discriminate].
   destruct (eval_indexes (eval code fuel) (i0 :: idx) m1) as [[path m2]| | |] eqn:Ei; try discriminate. cbn [bind] in H.
   destruct (here code m2) as [p2| | |]; try discriminate. cbn [bind] in H.
-  destruct (lookup_var x (m_scopes m2)) as [c|] eqn:El2; [|unfold rt_err, fail_here, unexpected_at in H; destruct (stmt_at code (m_pc m2)); discriminate].
+  destruct (lookup_var x (m_scopes m2)) as [c|] eqn:El2; [|discriminate].
   destruct (assign_path m2 c path v p2) as [m3| | |] eqn:Ea; try discriminate. cbn [bind] in H. injection H as <-.
   assert (Hne : path <> []) by (eapply eval_indexes_nonempty; [exact Ei|discriminate]).
   destruct (exists_last Hne) as (pre & ix & ->).
